@@ -14,13 +14,20 @@ use serde_json::{json, Value};
 
 const DIM: usize = 3;
 
+thread_local! {
+    /// every coordinate is multiplied by this factor (1.0 for the seven standard fixtures; the
+    /// `cosine-small` fixture uses 3e-5 so that products of norms fall into (0, f32::EPSILON])
+    static SCALE: std::cell::Cell<f32> = const { std::cell::Cell::new(1.0) };
+}
+
 fn vec_of(i: u32, salt: u32) -> Vec<f32> {
     let k = i.wrapping_mul(7).wrapping_add(salt);
     let mut v = vec![((k * 7) % 11) as f32 - 5.0, ((k * 3) % 7) as f32 - 3.0, ((k * 5) % 13) as f32 - 6.0];
     if v.iter().all(|x| *x == 0.0) {
         v[0] = 1.0;
     }
-    v
+    let scale = SCALE.with(|s| s.get());
+    v.iter().map(|x| x * scale).collect()
 }
 
 fn hex(b: &[u8]) -> String {
@@ -137,4 +144,7 @@ fn main() {
     gen::<BinaryQuantizedEuclidean>("bq-euclidean", seed, out_dir);
     gen::<BinaryQuantizedCosine>("bq-cosine", seed, out_dir);
     gen::<BinaryQuantizedManhattan>("bq-manhattan", seed, out_dir);
+    // small magnitudes: the cosine distance of the reference treats norm products up to f32::EPSILON as vanishing
+    SCALE.with(|s| s.set(3.0e-5));
+    gen::<Cosine>("cosine-small", seed, out_dir);
 }
